@@ -13,6 +13,7 @@ package simrt
 
 import (
 	"encoding/binary"
+	"fmt"
 	"iter"
 	"os"
 	"runtime"
@@ -444,6 +445,8 @@ func nextMapSeed() uint64 {
 	return splitmix(seed ^ splitmix(mapCtr))
 }
 
+var debugMap = os.Getenv("VERIF_DEBUG_MAP") != ""
+
 func cmpKey[K comparable](a, b K) int {
 	switch x := any(a).(type) {
 	case string:
@@ -544,6 +547,10 @@ func Range[M ~map[K]V, K comparable, V any](m M) iter.Seq2[K, V] {
 		}
 		slices.SortFunc(keys, cmpKey[K])
 		s := nextMapSeed()
+		if debugMap {
+			_, file, line, _ := runtime.Caller(1)
+			fmt.Fprintf(os.Stderr, "MAPRANGE %d %s:%d n=%d\n", mapCtr, file, line, len(keys))
+		}
 		for i := len(keys) - 1; i > 0; i-- {
 			s = splitmix(s)
 			j := int(s % uint64(i+1))
